@@ -34,3 +34,17 @@ impl Variables {
         self.0.contains_key(name)
     }
 }
+
+#[cfg(feature = "verif-hooks")]
+impl Variables {
+    /// Sorted list of (name, value is a string).
+    pub(crate) fn verif_entries(&self) -> Vec<(String, bool)> {
+        let mut entries: Vec<(String, bool)> = self
+            .0
+            .iter()
+            .map(|(name, value)| (name.to_string(), matches!(value, Value::String(_))))
+            .collect();
+        entries.sort();
+        entries
+    }
+}
